@@ -89,7 +89,60 @@ Definition version_ok (s : string) : bool :=
 (* ---------------------------------------------------------------- rules *)
 Record alt := mkAlt { a_ok : bool; a_tag : N; a_vars : list string }.
 
-Inductive check := ChkNone | ChkKind (s : string) | ChkObject (s : string) | ChkTag (s : string) | ChkVersion (s : string).
+(* operands of a comparison in a Where expression: a constant (literal, named constant, folded constant expression) or the
+   line / type size / integer value / text of a pattern variable *)
+Inductive operand := OLit | OLine | OSize | OValueInt | OText.
+
+Definition is_lit (o : operand) : bool := match o with OLit => true | _ => false end.
+Definition operand_eqb (a b : operand) : bool :=
+  match a, b with OLit, OLit | OLine, OLine | OSize, OSize | OValueInt, OValueInt | OText, OText => true | _, _ => false end.
+
+Inductive check := ChkNone | ChkKind (s : string) | ChkObject (s : string) | ChkTag (s : string) | ChkVersion (s : string)
+                 | ChkBinary (eqop : bool) (l r : operand).       (* l op r; eqop: the operator is == or != *)
+
+(* ---------------------------------------------------------------- newBinaryExprFilter: comparisons *)
+(* A constant on the left of == / != is moved to the right: the function swaps the operands and calls itself again, as long as
+   [guard (Args[0].IsBasicLit()) (Args[1].IsBasicLit())] holds.  [None]: the recursion did not stop within the fuel (in Go: the
+   goroutine stack overflows, a fatal error no recover() catches).  Afterwards the left operand must be a variable property
+   and the right one a constant or the same property of a variable. *)
+Section Binary.
+Variable guard : bool -> bool -> bool.
+
+Fixpoint binary_norm (fuel : nat) (eqop : bool) (l r : operand) : option (operand * operand) :=
+  match fuel with
+  | O => None
+  | S f => if guard (is_lit l) (is_lit r) && eqop then binary_norm f eqop r l else Some (l, r)
+  end.
+
+Definition binary_ok (eqop : bool) (l r : operand) : bool :=
+  match binary_norm 2 eqop l r with
+  | Some (l', r') => negb (is_lit l') && (is_lit r' || operand_eqb l' r')
+  | None => false
+  end.
+
+(* what makes the recursion stop: a pair that is swapped is not swapped back *)
+Definition guard_flips : Prop := forall a b, guard a b = true -> guard b a = false.
+
+(* newBinaryExprFilter calls itself at most once: two levels always suffice, more fuel changes nothing *)
+Theorem binary_norm_terminates : guard_flips ->
+  forall fuel eqop l r, binary_norm (2 + fuel) eqop l r = binary_norm 2 eqop l r /\ binary_norm 2 eqop l r <> None.
+Proof.
+  intros Hf fuel eqop l r. cbn [plus binary_norm].
+  destruct (guard (is_lit l) (is_lit r)) eqn:G; cbn [andb]; [|split; [reflexivity|discriminate]].
+  destruct eqop; cbn [andb]; [|split; [reflexivity|discriminate]].
+  rewrite (Hf _ _ G). cbn [andb]. split; [reflexivity|discriminate].
+Qed.
+
+(* after the normalisation a comparison that is accepted has a variable property on the left *)
+Theorem binary_ok_shape eqop l r : binary_ok eqop l r = true ->
+  exists l' r', binary_norm 2 eqop l r = Some (l', r') /\ is_lit l' = false /\ (is_lit r' = true \/ r' = l').
+Proof.
+  unfold binary_ok. destruct (binary_norm 2 eqop l r) as [[l' r']|]; [|discriminate].
+  intros H. apply andb_true_iff in H. destruct H as [H1 H2]. exists l', r'. split; [reflexivity|]. split.
+  - now apply negb_true_iff in H1.
+  - apply orb_true_iff in H2. destruct H2 as [H2|H2]; [now left|right]. destruct l', r'; try discriminate; reflexivity.
+Qed.
+End Binary.
 
 Record atom := mkAtom { at_vars : list string; at_chk : check }.
 
@@ -105,6 +158,7 @@ Section Validate.
 Variable nb : N.
 Variable place_cases : list (N * place).
 Variable kind_names object_names tag_names : list string.
+Variable swap_guard : bool -> bool -> bool.     (* regenerated from newBinaryExprFilter *)
 
 Definition check_ok (c : check) : bool :=
   match c with
@@ -113,6 +167,7 @@ Definition check_ok (c : check) : bool :=
   | ChkObject s => mem s object_names
   | ChkTag s => mem s tag_names
   | ChkVersion s => version_ok s
+  | ChkBinary eqop l r => binary_ok swap_guard eqop l r
   end.
 
 Definition bound (a : alt) (v : string) : bool := String.eqb v "$$" || mem v (a_vars a).
